@@ -183,6 +183,10 @@ func (in *Interp) verifrtConcrete(name string, args []Value) (Value, bool) {
 		seed := args[0].(int64)
 		k := 0
 		return &Native{Name: "generator", Fn: func(in *Interp, _ []Value) Value {
+			if in.drawMode > 0 {
+				k++
+				return ConcreteDraw(in.drawMode, seed, k-1)
+			}
 			n := fmt.Sprintf("draw[%d][%d]", seed, k)
 			k++
 			if v, ok := cc.Values[n]; ok {
